@@ -408,3 +408,13 @@ impl EndpointConfig {
         self.max_receive_alloc > 0
     }
 }
+
+/// Verification-only re-exports of internal types (compiled only with `--cfg uflow_verif`).
+#[cfg(uflow_verif)]
+#[allow(missing_docs)]
+pub mod verif {
+    pub use crate::half_connection::{HalfConnection, Config, FrameSink, PacketSink, VerifSnapshot};
+    pub use crate::half_connection::{SendRateComp, FeedbackData, VerifRateState};
+    pub use crate::frame::*;
+    pub use crate::frame::serial::{Serialize, DataFrameBuilder, AckFrameBuilder, crc_compute};
+}
